@@ -161,7 +161,10 @@ func trustedResourceURLFormat(format string, args map[string]string) (TrustedRes
 	if err == nil && format[0] == '/' && len(ret) > 1 && (ret[1] == '/' || ret[1] == '\\') && !strings.HasPrefix(format, "//") {
 		err = fmt.Errorf("arguments must not turn the path-absolute format %q into the scheme-relative URL %q", format, ret)
 	}
-	return TrustedResourceURL{ret}, err
+	if err != nil {
+		return TrustedResourceURL{}, err
+	}
+	return TrustedResourceURL{ret}, nil
 }
 
 // trustedResourceURLFormatMarkerPattern matches markers in TrustedResourceURLFormat
